@@ -2,7 +2,7 @@
 """Entry point of every registered check:  python3 tools/check.py <Cnn> [--tier quick|thorough] [--replay file]"""
 import sys, os, json, argparse
 sys.path.insert(0, os.path.dirname(os.path.abspath(__file__)))
-import vlib, hashcheck, aescheck
+import vlib, hashcheck, aescheck, c12check
 
 
 # ----------------------------------------------------------------------------- hash family
@@ -195,6 +195,106 @@ AES_THMS = {
 }
 
 
+def check_c12(pid, tier, replay=None):
+    import random, subprocess
+    chk = vlib.Check(pid, tier)
+    info = c12check.gen_dispatch.main(quiet=True)
+    chk.oblige("translator: all resolver instructions map to the 14-form mini-ISA (%d entries)" % info["entries"],
+               info["unsupported"] == 0 and info["entries"] > 0, "unsupported=%d" % info["unsupported"])
+    thms = ["IsalVerif.GenProps.Dispatch.dispatch_exec_ok", "IsalVerif.GenProps.Dispatch.dispatch_family_ok",
+            "IsalVerif.GenProps.Dispatch.C12_exec", "IsalVerif.GenProps.Dispatch.C12_family",
+            "IsalVerif.Dispatch.C12_check_sound", "IsalVerif.Dispatch.C12_paths_complete", "IsalVerif.Dispatch.C12_stable"]
+    ok, out = vlib.lake_build(["IsalVerif.GenProps.Dispatch", "IsalVerif.Props.C12", "isal_dispatch_model"])
+    lean_failed = []
+    if ok:
+        hits = vlib.audit_sources()
+        chk.oblige("audit:no sorry/admit/axiom/native_decide/bv_decide/implemented_by/unsafe in lean sources", not hits, "; ".join(hits[:5]))
+        ax1, _ = vlib.print_axioms("IsalVerif.GenProps.Dispatch", thms[:4])
+        ax2, _ = vlib.print_axioms("IsalVerif.Props.C12", thms[4:])
+        ax1.update(ax2)
+        for t in thms:
+            good = ax1.get(t) is not None and set(ax1[t]) <= vlib.ALLOWED_AXIOMS
+            chk.oblige("lean:" + t, good, "axioms=%s" % (ax1.get(t),))
+            if not good:
+                lean_failed.append(t)
+    else:
+        for t in thms:
+            chk.oblige("lean:" + t, False, "lake build failed")
+        lean_failed = ["lake build IsalVerif.GenProps.Dispatch"]
+    # translator validation: real resolvers (hook build) under virtual CPUID vs the interpreter on Gen
+    drv, addr2sym, ents = c12check.build_dispatch_harness()
+    rng = random.Random(chk.seed)
+    ncfg = 400 if tier == "quick" else 20000
+    cfgs = c12check.gen_configs(rng, ncfg)
+    entries_detail = {e["name"]: e for e in info["entries_detail"]}
+    failing, groupok, evalout = ([], True, "")
+    if not ok or lean_failed:
+        # the model half must build for the search: build everything except the failing obligations
+        vlib.lake_build(["IsalVerif.Gen.Dispatch", "IsalVerif.Lemmas.DispatchCheckSound", "IsalVerif.Lemmas.DispatchFamily", "isal_dispatch_model"])
+        failing, groupok, evalout = c12check.failing_paths()
+        for fp in failing:
+            e = entries_detail.get(fp["entry"], {})
+            cfgs.append(c12check.witness_for(fp["conds"], e.get("aesmin", False)))
+    inp = "".join("%d %d %d %d %d\n" % tuple(c) for c in cfgs)
+    real = subprocess.run([drv], input=inp, capture_output=True, text=True).stdout.strip().split("\n")
+    model = subprocess.run([os.path.join(vlib.LEAN, ".lake", "build", "bin", "isal_dispatch_model")], input=inp,
+                           capture_output=True, text=True).stdout.strip().split("\n")
+    mismatch, compared = [], 0
+    selected = {}
+    for ci, (rl, ml) in enumerate(zip(real, model)):
+        rd = dict(x.split("=") for x in rl.split())
+        md = dict(x.split("=") for x in ml.split())
+        for e in md:
+            compared += 1
+            names = addr2sym.get(int(rd.get(e, "0"), 16), ["?"]) if rd.get(e, "?") not in ("?stub",) else ["?stub"]
+            selected.setdefault(e, set()).add(md[e])
+            if md[e] not in names and len(mismatch) < 5:
+                mismatch.append({"cfg": cfgs[ci], "entry": e, "real": names, "model": md[e]})
+    chk.oblige("translator validation: real resolvers under virtual CPUID agree with the interpreter on Gen (%d configs x %d entries)" % (len(cfgs), len(ents)),
+               not mismatch and len(real) == len(model) == len(cfgs), "compared=%d mismatches=%d" % (compared, len(mismatch)))
+    if mismatch:
+        chk.violation("translator/model disagrees with the real resolver for %s" % mismatch[0]["entry"],
+                      {"kind": "config", "cfg": mismatch[0]["cfg"], "entry": mismatch[0]["entry"], "observed": mismatch[0]["real"],
+                       "expected": mismatch[0]["model"]}, no_input=True, match={"entry": mismatch[0]["entry"], "monitor": "translator"})
+    # property decision on failing obligations: concrete configuration whose selected target needs an unavailable class
+    reported = set()
+    for fp in failing:
+        e = entries_detail.get(fp["entry"], {})
+        cfg = c12check.witness_for(fp["conds"], e.get("aesmin", False))
+        line = "%d %d %d %d %d\n" % tuple(cfg)
+        rl = subprocess.run([drv], input=line, capture_output=True, text=True).stdout.strip()
+        rd = dict(x.split("=") for x in rl.split())
+        names = addr2sym.get(int(rd.get(fp["entry"], "0"), 16), ["?"])
+        hit = fp["target"] in names
+        key = (fp["entry"], fp["target"])
+        if key in reported:
+            continue
+        reported.add(key)
+        macro = "F10" if "_ni" in fp["target"] else "F11" if ("vaes" in fp["target"]) else "?"
+        chk.violation("%s binds to %s although %s unavailable" % (fp["entry"], fp["target"], fp["missing"].replace("IsalVerif.Dispatch.Isa.", "")),
+                      {"kind": "config", "entry": fp["entry"], "cfg": {"l1eax": cfg[0], "l1ecx": cfg[1], "l7ebx": cfg[2], "l7ecx": cfg[3], "xcr0": cfg[4]},
+                       "path_conditions": fp["conds"], "target": fp["target"], "missing": fp["missing"],
+                       "real_resolver_selected": names, "reproduced_on_real_resolver": hit, "minimized": True},
+                      no_input=not hit, match={"entry": fp["entry"], "target": fp["target"], "monitor": macro})
+    if lean_failed and not failing and not mismatch:
+        chk.violation("Lean obligation no longer checks: %s" % lean_failed[0],
+                      {"kind": "obligation", "obligation": lean_failed[0], "detail": out[-1500:] + evalout[-500:]}, no_input=True)
+    if not groupok:
+        chk.violation("entry points of one shared object do not share a resolver skeleton",
+                      {"kind": "obligation", "obligation": "IsalVerif.GenProps.Dispatch.dispatch_family_ok"}, no_input=True)
+    chk.cov["evaluations"] = compared
+    chk.cov["distinct_nontrivial"] = sum(len(v) for v in selected.values())
+    chk.cov["programs"] = info["entries"]
+    chk.cov["targets_selected_per_entry"] = {k: sorted(v) for k, v in list(selected.items())[:6]}
+    chk.samples = [{"cfg": cfgs[i], "selected": model[i].split()[:3]} for i in range(0, min(len(model), 40), 13)]
+    chk.trusted = ["Lean 4.33.0 kernel (decide +kernel on the regenerated programs); axioms propext, Classical.choice, Quot.sound",
+                   "translator tools/gen_dispatch.py + tools/disasm.py (objdump/nm front end, ISA class table) - validated against the real resolvers under the ISAL_CRYPTO_VERIF hook",
+                   "Dispatch.reqBits / archRules written from the Intel SDM; conventions (AES-NI/PCLMUL with SSE4.1 for AES entries, BMI1/2 with AVX2) are explicit hypotheses"]
+    chk.assumptions = ["CPUID leaf 1/7 and XCR0 are the only inputs of the resolvers (checked: any other instruction is 'unsupported')"]
+    return chk.finish(level="proof", rule="configs: feature levels x SHA x random dropped/added relevant bits (closed under the "
+                      "architectural rules); distinct_nontrivial = distinct (entry, selected target) pairs observed")
+
+
 def check_c15(pid, tier, replay=None):
     """big totals: every family really hashes a stream crossing 2^29 (quick) / 2^32 / 2^32+2^29 (thorough)"""
     import subprocess
@@ -275,7 +375,7 @@ def check_c15(pid, tier, replay=None):
                       "digests/totals compared with the Lean model and the final digest with OpenSSL")
 
 
-CHECKS = {"C01": check_hash, "C06": check_hash, "C11": check_hash, "C15": check_c15,
+CHECKS = {"C01": check_hash, "C06": check_hash, "C11": check_hash, "C15": check_c15, "C12": check_c12,
           "C02": check_aes, "C03": check_aes, "C04": check_aes, "C07": check_aes}
 
 
